@@ -254,6 +254,16 @@ def run(ctx):
             elif ks == {"Failure"}:
                 ctx.ob("C01.short-is-not-error", p.end == "return" and classify_return(p) == "err", "a parser Failure does not return an error", fn=fr.path, construct="failure", nontrivial=False)
         ctx.floor("C01.short-is-not-error", "short-buffer paths (%s)" % cfg, nshort, 1)
+        # the converse: since Error/Incomplete mean `read more`, a verdict the framing parsers build themselves about a
+        # *complete* malformed message (fragment ids out of order) must be a Failure, or the connection waits forever
+        nbuilt = 0
+        pfn = cname(fr.term(pbb)["func"])
+        for fn_, b, bb, i, vname in readloop.built_verdicts(prog, pfn):
+            nbuilt += 1
+            ctx.ob("C01.short-is-not-error", vname == "Failure",
+                   "%s builds nom::Err::%s itself: the reader takes Error/Incomplete as `read more`, so a malformed but complete message would never be refused" % (fn_, vname),
+                   fn=fn_, construct="built-verdict", callee=vname, where=b.where(bb, i))
+        ctx.floor("C01.short-is-not-error", "verdicts built by the framing parsers (%s)" % cfg, nbuilt, 1)
         for pn in (r"^packet::onepacket$", r"^packet::fullpacket$"):
             b = prog.one(pn)
             ctx.fn(b)
